@@ -11,7 +11,7 @@ MANIFEST = dict(
          "sql_print_parse (emitter strengths vs SQLite's grammar: partial + counterexamples for comparison chains etc.), per-operator "
          "SQL meaning. Ties: every (parent, child, side) operator triple at depth 2, again under one more level, literal-folding cases and "
          "random trees of depth <= 6 are compiled by the real compiler for sqlite and generic: RQ tree vs the model's staticEval(expand(tree)), "
-         "SQL text vs the model's sqlPrint, and the value SQLite returns over {NULL,-7,-1,0,1,2,7}^3 vs the documented meaning evalDoc; the same triples with a compound operand NAMED first (derive, then use: the back end inlines the definition) must give the text of the in-place form; "
+         "SQL text vs the model's sqlPrint, and the value SQLite returns over {NULL,-7,-1,0,1,2,7}^3 vs the documented meaning evalDoc; the same triples with a compound operand NAMED first (derive, then use: the back end inlines the definition) must give the text of the in-place form; a condition split over several `filter` transforms must give the WHERE text of the conjunction written in place (each filter parenthesised like an operand of AND); "
          "the Lean SQLite semantics (sqlParse, evalS) is validated against the real SQLite on the same rows.",
     note="reals are exact rationals in the model; SQLite results are compared with tolerance where a non-dyadic rational or POW occurs, "
          "and rows whose truth value depends on an inexact intermediate are not judged. Text values (regex, concat) have no documented "
@@ -459,6 +459,7 @@ def run(ctx):
     ctx.coverage_extra["minimal_failing_trees"] = len(minimal)
     concat_suite(ctx, ev)
     alias_suite(ctx, ev, suites[0][1] + suites[1][1])
+    filter_chain_suite(ctx, ev, suites[0][1])
     ctx.obligation("correspondence: RQ tree = staticEval (expand tree)", total_bad["rq"] == 0, f"{total_bad['rq']} differences")
     ctx.obligation("correspondence: SQL text = sqlPrint (sqlite, generic)", total_bad["sql"] == 0, f"{total_bad['sql']} differences")
     ctx.obligation("correspondence: Model.Pratt parses what Model.Pratt prints", total_bad["reparse"] == 0, "")
@@ -522,6 +523,67 @@ def alias_suite(ctx, ev, trees):
                              {"prql": prog, "dialect": d, "real": txt, "inline": r["sql"]})
     ctx.obligation("correspondence: an operand named first (derive, then use) is inlined with the parentheses of the in-place operand",
                    ndiff == 0 and nbad == 0 and len(items) > 0, f"{len(items)} programs, {ndiff} texts differ harmlessly, {nbad} change a value")
+
+
+def filter_chain_suite(ctx, ev, trees):
+    """one condition written as SEVERAL `filter` transforms (`filter L | filter R`): the back end joins the filters of one SELECT with
+    AND (filter_of_conditions), and each of them has to be parenthesised like an operand of that AND. Expected: the WHERE text is the
+    text of `L && R` written in place; on a difference, the rows the WHERE keeps are judged against the rows on which the in-place
+    expression is true."""
+    a, b, c = ("col", 0), ("col", 1), ("col", 2)
+    conds = [t for t in dict.fromkeys(trees) if t[0] == "bin" and t[1] in ("And", "Or", "Eq", "Ne", "Gt", "Lt", "Gte", "Lte", "Coalesce")
+             and all(n[0] not in ("null", "int", "bool", "float", "str") for n in G.nodes(t))]
+    simple = [("bin", "Gt", a, b), ("bin", "Or", ("bin", "Gt", a, b), ("bin", "Eq", b, c)), ("bin", "And", ("bin", "Lt", a, c), ("bin", "Ne", b, c)),
+              ("un", "Not", ("bin", "Eq", a, c)), ("bin", "Coalesce", ("bin", "Gt", a, c), ("bin", "Lt", b, c))]
+    pairs = [(l, r) for l in simple for r in conds[:60]] + [(l, r) for l in conds[:60] for r in simple]
+    pairs = list(dict.fromkeys(pairs))
+    whole = [("bin", "And", l, r) for (l, r) in pairs]
+    ev.ensure(whole)
+    items = []
+    for (l, r), w in zip(pairs, whole):
+        for d in DIALECTS:
+            rr = ev.res.get((w, d))
+            if rr is None or rr["sql"] is None or rr["rq"] is None:
+                continue
+            prog = G.PRELUDE + "from t | filter " + G.full_paren(l) + " | filter " + G.full_paren(r) + " | select {a, b, c}"
+            items.append((w, d, prog, rr))
+    ans = vh_batch([{"op": "compile", "prql": prog, "target": "sql." + d} for (_, d, prog, _) in items])
+    ndiff = nbad = 0
+    orc = G.Oracle()
+    for (w, d, prog, rr), an in zip(items, ans):
+        ctx.case(("filter-chain", w, d), nontrivial=True)
+        ctx.count("suite=condition-split-over-several-filters")
+        if "sql" not in an:
+            ndiff += 1
+            ctx.disagreement("filter chain", f"{d}: the program with the condition split over two filters is rejected: {str(an)[:200]}", {"prql": prog, "dialect": d})
+            continue
+        mm = re.fullmatch(r"SELECT a, b, c FROM t WHERE (.*)", an["sql"], re.S)
+        if mm is not None and mm.group(1) == rr["sql"]:
+            continue
+        ctx.count("condition-split: WHERE text differs from the in-place conjunction")
+        # judge by rows: the WHERE keeps exactly the rows on which the in-place expression is true
+        try:
+            got = [tuple(x) for x in orc.con.execute(an["sql"]).fetchall()]
+        except Exception as e:
+            got = None
+        want = None
+        if rr["vals"] is not None:
+            want = [row for row, v in zip(orc.rows, rr["vals"]) if v not in (None, 0, 0.0)]
+        inline_bad, _ = ev.oracle_mismatches(w, d)
+        key = lambda t_: tuple((0, 0) if v is None else (1, v) for v in t_)
+        if got is None or (want is not None and not inline_bad and sorted(map(key, got)) != sorted(map(key, want))):
+            nbad += 1
+            ctx.oracle_failure(None, f"{d}: a condition split over two filters keeps other rows than the conjunction written in place: `{an['sql']}` "
+                               f"(in place: `{rr['sql']}`)", {"prql": prog, "dialect": d, "tree": G.sexp(w), "sql": an["sql"], "inline_sql": rr["full_sql"],
+                                                             "kept": (got or [])[:6], "expected": (want or [])[:6]})
+        elif mm is None:
+            ctx.count("condition-split: other statement shape (judged by rows)")
+        else:
+            ndiff += 1
+            ctx.disagreement("filter chain", f"{d}: WHERE `{mm.group(1)}` differs from the in-place conjunction `{rr['sql']}` (same rows)",
+                             {"prql": prog, "dialect": d, "real": mm.group(1), "inline": rr["sql"]})
+    ctx.obligation("correspondence: a condition split over several filters is joined with AND, each filter parenthesised like an operand of AND (= the conjunction in place)",
+                   ndiff == 0 and nbad == 0 and len(items) > 0, f"{len(items)} programs, {ndiff} texts differ harmlessly, {nbad} keep other rows")
 
 
 def concat_suite(ctx, ev):
